@@ -145,6 +145,52 @@ theorem owns_not_disabled (d : Disabled) (plugin : Str) (methods : List Str) (c 
   simp only [Bool.and_eq_true, Bool.not_eq_true'] at h
   exact h.1.1
 
+/-- **What a history of `disable` / `enable` leaves disabled** (the real semantics of the
+`DisabledCommands` store, starting empty; `h` lists the operations most recent first, on canonical
+names): `isDisabled` for plugin `p` and command `c` is decided by
+* the last `disable c` / `enable c` (no plugin given) if no operation about exactly `(p, c)` follows
+  it — `enable c` erases every per-plugin entry of `c` as well;
+* otherwise the last operation about `(p, c)`: `disable p c` disables; `enable p c` enables unless
+  `c` is at that moment disabled everywhere, in which case it changes nothing.
+Operations about other commands or other plugins never matter. -/
+theorem disabled_history (h : List SOp) (command plugin : Str) :
+    isDisabled (runK h) command plugin = says (canonicalName plugin) (canonicalName command) h := by
+  rw [isDisabled_eq, disabledK_run]
+
+/-- one operation, from any store: `isDisabled` afterwards in terms of before -/
+theorem disabled_step (d : Disabled) (op : SOp) (command plugin : Str) :
+    isDisabled (stepK d op) command plugin =
+      match op with
+      | .disableAll c' => if canonicalName command = c' then true else isDisabled d command plugin
+      | .enableAll c' => if canonicalName command = c' then false else isDisabled d command plugin
+      | .disableFor p' c' =>
+        if canonicalName command = c' ∧ canonicalName plugin = p' then true else isDisabled d command plugin
+      | .enableFor p' c' =>
+        if canonicalName command = c' ∧ canonicalName plugin = p' then isGlobalK d (canonicalName command)
+        else isDisabled d command plugin := by
+  rw [isDisabled_eq, disabledK_step, ← isDisabled_eq]
+  cases op <;> rfl
+
+/-! Full statement about `Owner.enable` (FALSE on the pinned tree, known finding
+`C14-global-enable-error-erases-plugin-entry`):
+
+    theorem enable_error_changes_nothing (s : OwnerSt) (pl : Option Str) (c : Str) :
+        (ownerEnable s pl c).2 = false → (ownerEnable s pl c).1 = s
+
+`enable <command>` removes the whole store entry first and only then looks for the name in the
+registry set; when the command was disabled per plugin the second step raises, the owner is told
+"That command wasn't disabled." — and the per-plugin disable is gone from the live store. -/
+
+/-- the witness: after `disable VtOrderB igno`, `enable igno` reports an error and re-enables `VtOrderB.igno` -/
+theorem enable_error_erases_entry :
+    let s0 : OwnerSt := ⟨[], []⟩
+    let b : Str × List Str := (['V', 't', 'O', 'r', 'd', 'e', 'r', 'B'], [['i', 'g', 'n', 'o']])
+    let s1 := (ownerDisable s0 (some b) ['i', 'g', 'n', 'o']).1
+    isDisabled s1.store ['i', 'g', 'n', 'o'] b.1 = true ∧
+    (ownerEnable s1 none ['i', 'g', 'n', 'o']).2 = false ∧
+    isDisabled (ownerEnable s1 none ['i', 'g', 'n', 'o']).1.store ['i', 'g', 'n', 'o'] b.1 = false := by
+  decide
+
 /-- **A plugin-qualified name reaches that plugin**: with the callbacks `pre ++ P :: post`, `P`
 called `p` and having the enabled command `cmd`, and no *other* plugin called `p` or owning a
 command group called `p` (nor `P` a group called `p` or `cmd`), the line `p cmd …` runs `cmd` in
